@@ -108,6 +108,14 @@ func (e *elecWorld) apply(o elecOp) elecRes {
 		} else {
 			r.Mode, err = e.m.UpdateMode(mode, resource.WithUpdateMask(mask))
 		}
+	case "upsert":
+		// an update that may create the mode: whatever the model makes of it, its invariants are the same
+		mode := &traits.ElectricMode{Id: o.ID, Title: o.Title, Normal: o.Normal}
+		uopts := []resource.WriteOption{resource.WithCreateIfAbsent()}
+		if o.HasMask {
+			uopts = append(uopts, resource.WithUpdateMask(&fieldmaskpb.FieldMask{Paths: o.Mask}))
+		}
+		r.Mode, err = e.m.UpdateMode(mode, uopts...)
 	case "delete":
 		if o.ViaServer {
 			_, err = e.srv.DeleteMode(ctx, &electricpb.DeleteModeRequest{Id: o.ID, AllowMissing: o.AllowMiss})
@@ -185,7 +193,11 @@ func elecGenOp(t *Tape, ids []string, n *int) elecOp {
 	*n++
 	o := elecOp{Title: fmt.Sprintf("t%d", *n), ViaServer: t.Flag(1, 2)}
 	id := ids[t.Choose(len(ids))]
-	switch t.Choose(11) {
+	switch t.Choose(12) {
+	case 11:
+		// (without an update mask: a mode created through a mask that leaves its id out is stored without one, which
+		// is its own can of worms and none of this property's business)
+		o.Kind, o.ID, o.Normal, o.ViaServer = "upsert", id, t.Flag(1, 2), false
 	case 0, 1:
 		o.Kind, o.Normal = "create", t.Flag(1, 2)
 	case 2:
